@@ -417,7 +417,7 @@ def run(prop, tier, scratch, ev_path, a, t00):
         return 2
     units = [u for u in units if tier in u.tiers]
     if a.only:
-        units = [u for u in units if re.search(a.only, u.name)]
+        units = [u for u in units if re.search(a.only, u.name + '[' + u.inst + ']')]
     for u in units:
         u.prov = list(ctx.extract_log)
     with ThreadPoolExecutor(max_workers=a.jobs) as ex:
